@@ -10,14 +10,11 @@ from ..env import ptn
 COND = 1e-5
 
 
-def check_lanczos(ctx, A, v, m, sig_extra=()):
+def check_lanczos(ctx, A, v, m, sig_extra=(), rng=None, style=None):
     n = len(v)
-    calls = [0]
-
-    def Afunc(x):
-        calls[0] += 1
-        return A @ x
-    detail = {'A': A, 'v': v, 'm': m}
+    Afunc, style, calls = kr.make_callable(rng or np.random.default_rng(n * 1000 + m), A, style)
+    ctx.event('callable_style:' + style)
+    detail = {'A': A, 'v': v, 'm': m, 'callable_style': style}
     v0 = v.copy()
     with warnings.catch_warnings(record=True) as wl:
         warnings.simplefilter('always')
@@ -76,14 +73,11 @@ def verify_lanczos(ctx, A, v, v0, m, out, ncalls, detail, s=False):
     return k, kd, ind
 
 
-def check_arnoldi(ctx, A, v, m):
+def check_arnoldi(ctx, A, v, m, rng=None, style=None):
     n = len(v)
-    calls = [0]
-
-    def Afunc(x):
-        calls[0] += 1
-        return A @ x
-    detail = {'A': A, 'v': v, 'm': m}
+    Afunc, style, calls = kr.make_callable(rng or np.random.default_rng(n * 1000 + m + 7), A, style)
+    ctx.event('callable_style:' + style)
+    detail = {'A': A, 'v': v, 'm': m, 'callable_style': style}
     v0 = v.copy()
     with warnings.catch_warnings(record=True) as wl:
         warnings.simplefilter('always')
@@ -150,7 +144,14 @@ def grid_case(ctx, idx, rng):
     A = A * float(rng.choice([1, 1, 1, 1e-4, 1e4]))          # the relations are scale covariant (the breakdown threshold of the iteration is absolute: scales below 1e-4 would make exhaustion ambiguous)
     ctx.case(('lanczos', 'n<=10', 'm>n' if m > n else ('m=n' if m == n else 'm<n'), spectrum, start, 'complex' if cplx else 'real'),
              sample={'n': n, 'm': m, 'spectrum': spectrum, 'start': start, 'A': A, 'v': v})
-    check_lanczos(ctx, A, v, m)
+    check_lanczos(ctx, A, v, m, rng=rng)
+    if idx % 9 == 4:
+        # the identity map handed over as `lambda x: x` (returns its argument / a view of it): Krylov dimension 1
+        I = np.identity(n)
+        ctx.case(('lanczos', 'identity-map-returning-its-argument', f'm{min(m, 3)}'), sample={'n': n, 'm': m})
+        check_lanczos(ctx, I, v, m, rng=rng, style='argument-when-identity')
+        ctx.case(('arnoldi', 'identity-map-returning-its-argument', f'm{min(m, 3)}'), sample={'n': n, 'm': m})
+        check_arnoldi(ctx, I, v, m, rng=rng, style='argument-when-identity')
     if idx % 4 == 0:
         # history: the SAME start-vector object changed in place, iteration run again (also with the same matrix object scaled in place)
         v *= 2.0
@@ -164,7 +165,7 @@ def grid_case(ctx, idx, rng):
         B = A      # keep the invariant subspace
     ctx.case(('arnoldi', 'n<=10', 'm>n' if m > n else ('m=n' if m == n else 'm<n'), spectrum, start, 'complex' if cplx else 'real',
               'hermitian' if B is A else 'general'), sample={'n': n, 'm': m, 'B': B, 'v': v})
-    check_arnoldi(ctx, B, v, m)
+    check_arnoldi(ctx, B, v, m, rng=rng)
 
 
 def large_case(ctx, idx, rng):
